@@ -21,6 +21,18 @@ CHECKS = {
    tech='property-based testing: generated rigid motions x spellings x base objects, inverse-image differential oracle',
    text='Surfaces with a TR number, cells with TRCL/*TRCL (numbered or inline) and implicit 1000*cell+surf surfaces are converted and compared point-wise with the base object evaluated at the inverse image of the point; TR cards in 3/12/13-entry, degree and abbreviated forms.',
    note='Trusted: MCNP TR conventions of DESIGN 4.2; abbreviated matrices only on TR cards and only where the completion is unique.'),
+ 'C05': dict(cat='exploration', ref='5/C05',
+   tech='property-based differential testing: generated universe trees, recursive point location in the abstract model vs T4 evaluator + provenance comments',
+   text='Generated universe trees (depth up to 3, quick; 4 thorough) with reuse, fill transformations in every spelling and container TRCL; every decided point must be in exactly the volume whose comment lists (filler, container) pairs matching the model chain, or in none.',
+   note='Trusted: FILL frame rule as stated in the property; harness model and evaluator.'),
+ 'C06': dict(cat='exploration', ref='5/C06',
+   tech='property-based differential testing of generated LAT=1 lattices + reference-free metamorphic periodicity relation',
+   text='Generated rectangular lattices (1-3 D, orthogonal/skew, any surface order, arrays/homogeneous fills, padded/negative/degenerate ranges, fill transformations and TRCL) are located with the pair-coordinate rule; for homogeneous fills the output must be translation-periodic.',
+   note='Trusted: MCNP lattice index convention as restated in the property; element = translated copy.'),
+ 'C07': dict(cat='exploration', ref='5/C07',
+   tech='property-based differential testing of generated LAT=2 lattices + metamorphic periodicity relation',
+   text='Generated hexagonal prisms (regular/irregular, tilted, 6 or 8 planes, oblique axes, any listing order allowed by the convention) are located by unit-prism membership in the basis implied by the construction; homogeneous fills must be periodic in the output.',
+   note='Trusted: hexagonal index convention as restated in the property; with six planes the axis is kept orthogonal (conventional component otherwise).'),
 }
 
 PENDING = {}
